@@ -41,7 +41,7 @@ m = {
         "name": "coq-proof+correspondence", "path": "/verif/check", "serves_properties": [c["property_id"] for c in checks],
         "kind_free_text": "Coq 8.16.1 theorems about hand-written executable Gallina models (coq/Cxx, coq/Props/Cxx.v, re-checked by coqc on every run) + correspondence lemmas generated on every run from /repo's working tree and checked by the kernel with vm_compute (harness/props/Cxx.py) + independent brute-force oracles used to find a failing input"}],
     "checks": checks,
-    "notes": "Genuine defects repaired by fix: commits and the findings left open are listed in known_findings.json and DESIGN.md section 8.",
+    "notes": "Genuine defects of /repo repaired by fix: commits are listed in known_findings.json (status fixed; no finding is left open, so no check prints a KNOWN-FINDING line) and in DESIGN.md section 9; scope decisions (what is judged, what is observation-only) in DESIGN.md section 7.5 and POLICY_X.md; independently seeded changes and which checks catch them in DESIGN.md section 10.",
     "not_applicable": na,
 }
 if not na:
